@@ -610,8 +610,9 @@ def _canon_exc(case, e, tbp, where):
         if e.code == x and type(e.code) is type(x):
             return f'sysexit:{oc[1]}'
     if isinstance(e, OSError) and case.get('kill') and e.errno == case['kill']['sig']:
-        if e.strerror and e.strerror.startswith(os.strerror(e.errno)):
-            return f'oserror:{e.errno}'
+        # "surfaces as an error": an OSError (any subclass) carrying the signal number; the message text is
+        # not part of the property (a check on `os.strerror` here was a false alarm on a harmless rewording)
+        return f'oserror:{e.errno}'
     return f'other:{cls}:{e.args!r}'[:200]
 
 
